@@ -38,4 +38,124 @@ func init() {
 		Rule:    "one job per leaf encoding; every feasible path of CPU.Step is explored; one obligation per compared state component per path",
 		Exhaust: true,
 	})
+
+	stepBounds := func(what string) map[string]interface{} {
+		return map[string]interface{}{"steps": 1, "opcode_bytes": "concrete, " + what, "symbolic": "all of States, HALT, 64 KiB memory, displacement/immediates, port inputs", "loop_unwinding": "none needed: Step is loop-free (unwinding assertion active)"}
+	}
+	stepAssume := []string{"Interrupt == nil", "Memory and IO are an ideal RAM / passive port space (harness bus)", "reference model vSpecStep is the Z80 definition (DESIGN.md §4)"}
+	register(&PropCheck{
+		ID:   "C02",
+		Dirs: []string{"z80"},
+		Jobs: func(tier string, seed int64) []Job { return stepJobs(encsOf("alu8", "rot", "bit"), "VStep") },
+		Only: func(job Job, a string) bool {
+			return inSet(a, "A", "F", "BC", "DE", "HL", "IX", "IY", "mem")
+		},
+		Bounds: stepBounds("every encoding of the 8-bit ALU / rotate-shift / BIT-SET-RES families; complete A x operand x F cube per encoding"),
+		Assume: stepAssume, Stubs: stepStubs, Exhaust: true,
+		Rule: "one job per encoding of the families; obligations: A, F (under the model's mask) and the written operand (register or memory byte)",
+	})
+	register(&PropCheck{
+		ID:   "C03",
+		Dirs: []string{"z80"},
+		Jobs: func(tier string, seed int64) []Job { return stepJobs(encsOf("arith16", "incdec16"), "VStep") },
+		Only: func(job Job, a string) bool {
+			return inSet(a, "F", "BC", "DE", "HL", "IX", "IY", "SP")
+		},
+		Bounds: stepBounds("ADD HL/IX/IY,ss; ADC/SBC HL,ss; INC/DEC ss/IX/IY; complete 2^32 operand pairs x F per encoding"),
+		Assume: stepAssume, Stubs: stepStubs, Exhaust: true,
+		Rule: "one job per encoding; obligations: the register pairs and F",
+	})
+	register(&PropCheck{
+		ID:   "C04",
+		Dirs: []string{"z80"},
+		Jobs: func(tier string, seed int64) []Job { return stepJobs(encsOf("jump", "call", "ret", "stack"), "VStep") },
+		Only: func(job Job, a string) bool {
+			return inSet(a, "A", "F", "BC", "DE", "HL", "IX", "IY", "SP", "PC", "mem", "tracelen", "trace")
+		},
+		Bounds: stepBounds("all jump/call/return/RST/PUSH/POP/EX (SP) encodings; all 256 F / B values"),
+		Assume: stepAssume, Stubs: stepStubs, Exhaust: true,
+		Rule: "one job per encoding; obligations: PC, SP, registers, F, memory and the access trace (stack bytes)",
+	})
+	register(&PropCheck{
+		ID:   "C05",
+		Dirs: []string{"z80"},
+		Jobs: func(tier string, seed int64) []Job { return stepJobs(allEncodings(), "VStep") },
+		Only: func(job Job, a string) bool {
+			return inSet(a, "tracelen", "trace", "rmw-order", "portcount", "ports")
+		},
+		Bounds: stepBounds("all 7 tables x 256 (1786 leaf encodings); trace length <= 8 (longest observed is reported)"),
+		Assume: stepAssume, Stubs: stepStubs, Exhaust: true,
+		Rule: "one job per leaf encoding; obligations: trace length, multiset equality of (kind,address,value) tuples with the model's trace, ordered port log, no read after write",
+	})
+	register(&PropCheck{
+		ID:   "C14",
+		Dirs: []string{"z80"},
+		Jobs: func(tier string, seed int64) []Job { return stepJobs(allEncodings(), "VStep") },
+		Only: func(job Job, a string) bool {
+			if inSet(a, "R", "I") {
+				return true
+			}
+			e := Enc{job.Params[0], job.Params[1]}
+			return classify(e) == "ir" && inSet(a, "A", "F")
+		},
+		Bounds: stepBounds("all 7 tables x 256 (1786 leaf encodings), unsupported ones included; all R and I"),
+		Assume: stepAssume, Stubs: stepStubs, Exhaust: true,
+		Rule: "one job per leaf encoding; obligations: R (2-or-3 accept set for DDCB/FDCB) and I; A and F for LD A,I / LD A,R / LD I,A / LD R,A",
+	})
+}
+
+func ddfdEncs() []Enc {
+	var out []Enc
+	for op := 0; op < 256; op++ {
+		if op != 0xcb {
+			out = append(out, Enc{3, op})
+		}
+	}
+	for op := 0; op < 256; op++ {
+		out = append(out, Enc{5, op})
+	}
+	return out
+}
+
+func init() {
+	register(&PropCheck{
+		ID:   "C11",
+		Dirs: []string{"z80"},
+		Jobs: func(tier string, seed int64) []Job {
+			return append(stepJobs(ddfdEncs(), "VC11"), stepJobs(ddfdEncs(), "VC11Indep")...)
+		},
+		Bounds:  map[string]interface{}{"steps": 1, "opcode_bytes": "concrete: all 255 second bytes after DD/FD and all 256 fourth bytes after DDCB/FDCB", "symbolic": "all of States (IX, IY independent), HALT, memory, displacement, port inputs"},
+		Assume:  []string{"no data access of the DD run hits the prefix byte at PC (the one byte where the two programs differ by construction)", "ideal RAM / passive ports", "Interrupt == nil"},
+		Stubs:   stepStubs,
+		Rule:    "per byte: one relational job DD(S) vs FD(swap S) (state, HALT, trace element-wise except the first fetch's value, memory) and one independence job (two DD runs differing only in IY)",
+		Exhaust: true,
+	})
+	register(&PropCheck{
+		ID:   "C10",
+		Dirs: []string{"z80"},
+		Jobs: func(tier string, seed int64) []Job { return stepJobs(allEncodings(), "VC10") },
+		Post: func(c *CheckCtx) {
+			// isolation: no path of Step writes a package-level variable
+			w := map[string]bool{}
+			rd := map[string]bool{}
+			for _, jr := range c.Results {
+				for g := range jr.GlobalW {
+					w[g] = true
+				}
+				for g := range jr.GlobalR {
+					rd[g] = true
+				}
+			}
+			c.Extra["package_vars_written_by_Step"] = sortedKeys(w)
+			c.Extra["package_vars_read_by_Step"] = sortedKeys(rd)
+			for g := range w {
+				c.structural("global-write/"+g, "a path of CPU.Step writes package-level variable "+g+": two CPUs on different goroutines would share (and race on) it")
+			}
+		},
+		Bounds:  map[string]interface{}{"steps": 1, "opcode_bytes": "concrete, all 1786 leaf encodings", "hidden": "every field of CPU other than States/Memory/IO/Interrupt/handlers is havocked independently in the two copies (taken from the type, so fields added later are included)"},
+		Assume:  []string{"ideal RAM / passive ports shared as equal answers", "goroutine interleavings are not executed: race-freedom is argued from the footprint (no package-level variable written, disjoint object graphs)"},
+		Stubs:   stepStubs,
+		Rule:    "per encoding one 2-copy job: equal States + equal bus answers, all other CPU fields independent, must give equal States, trace and memory; plus footprint: package-level variables written on any explored path",
+		Exhaust: true,
+	})
 }
